@@ -87,7 +87,7 @@ Mix ==
                              "KnockOutModelGenes", "RemoveGenes", "RenameGene", "RenameReaction", "RenameMetabolite",
                              "SetObjective", "SetObjCoef", "SetDirection", "SetMedium", "GetMedium", "SwitchSolver",
                              "AddUserCons", "AddUserVar", "RemoveUserCons", "RemoveUserVar", "AddGroup", "RemoveGroup",
-                             "Copy", "Enter", "Exit", "RoundTrip", "DetachedSetBounds", "RxnArith", "Merge">>
+                             "Copy", "Enter", "Exit", "RoundTrip", "DetachedSetBounds", "RxnArith", "Merge", "SaveDoc", "LoadDoc">>
     [] Profile = "ctx" -> <<"Enter", "Enter", "Enter", "Exit", "Exit", "Exit", "AddReactions", "RemoveReactions",
                             "RemoveReactions", "AddMetabolites", "RemoveMetabolites", "AddBoundary", "RxnAddMetabolites",
                             "RxnAddMetabolites", "RxnSubtractMetabolites", "RxnIMul", "RxnIAdd", "RxnISub", "SetLB", "SetUB",
@@ -102,9 +102,10 @@ Mix ==
                              "RenameMetabolite", "SetObjective", "SetDirection", "SetMedium", "AddUserCons", "AddGroup",
                              "RemoveGroup", "Annotate", "Annotate", "Annotate", "Analyze", "Enter", "Exit", "SwitchSolver",
                              "RxnArith", "RxnArith", "RxnArith", "Merge", "Merge">>
-    [] Profile = "io" -> <<"RoundTrip", "RoundTrip", "RoundTrip", "AddReactions", "RemoveReactions", "RxnAddMetabolites",
+    [] Profile = "io" -> <<"RoundTrip", "RoundTrip", "RoundTrip", "RoundTrip", "AddReactions", "RemoveReactions", "RxnAddMetabolites",
                            "SetBounds", "SetBounds", "SetLB", "SetUB", "SetRule", "SetObjective", "SetObjCoef",
-                           "SetDirection", "AddBoundary", "AddGroup", "Annotate", "RenameGene", "AddMetabolites">>
+                           "SetDirection", "AddBoundary", "AddGroup", "Annotate", "Annotate", "Annotate", "RenameGene",
+                           "AddMetabolites", "Copy", "SaveDoc", "SaveDoc", "LoadDoc", "LoadDoc">>
     [] Profile = "analyze" -> <<"Analyze", "Analyze", "Analyze", "Analyze", "SetBounds", "SetObjective", "SetDirection",
                                 "RemoveReactions", "AddReactions", "GeneKnockOut", "Enter", "Exit", "RxnKnockOut">>
 
@@ -197,11 +198,14 @@ DrawOp(r, S) ==
     [] k \in {"AddUserVar", "RemoveUserVar"} -> base @@ [name |-> Pick(<<"uv1", "uv2">>, d[8])]
     [] k = "AddGroup" -> base @@ [g |-> "grp1", members |-> IF d[8] % 2 = 0 THEN <<rx, mt>> ELSE <<rx, gn>>]
     [] k = "RemoveGroup" -> base @@ [g |-> "grp1"]
-    [] k = "Annotate" -> base @@ [x |-> Pick(<<rx, mt, gn>>, d[8]), v |-> 1 + (d[9] % 5), via |-> d[10] % 3]
+    [] k = "Annotate" -> base @@ [x |-> IF Profile = "io" /\ d[11] % 2 = 0 THEN "MODEL" ELSE Pick(<<rx, mt, gn, "MODEL">>, d[8]),
+                                  v |-> 1 + (d[9] % 5), via |-> d[10] % 3]
     [] k = "Copy" -> [a |-> k, s |-> 1, t |-> 2, kind |-> Pick(<<"copy", "deepcopy", "pickle">>, d[8])]
     [] k = "Merge" -> [a |-> k, s |-> s, t |-> 3 - s]
     [] k \in {"Enter", "Exit"} -> base
     [] k = "RoundTrip" -> base @@ [fmt |-> Pick(Formats, d[8])]
+    [] k = "SaveDoc" -> base @@ [fmt |-> Pick(<<"json", "yaml", "dict", "sbml", "pickle">>, d[8])]
+    [] k = "LoadDoc" -> [a |-> k, s |-> IF d[8] % 2 = 0 THEN 1 ELSE 2]
     [] k = "Analyze" -> base @@ [kind |-> Pick(AnalysisKinds, d[8]), arg |-> d[9] % 4]
     [] k = "Helper" -> base @@ [kind |-> Pick(HelperKinds, d[8])]
 
@@ -215,7 +219,17 @@ BoundOps ==
         [a |-> "RxnKnockOut", s |-> 1, r |-> "r1"],
         [a |-> "GeneKnockOut", s |-> 1, g |-> "g1"],
         [a |-> "Enter", s |-> 1], [a |-> "Exit", s |-> 1]}
+\* io vocabulary: export / import separated in time, edits through mutable containers in between
+IoOps ==
+  {[a |-> "RoundTrip", s |-> 1, fmt |-> f] : f \in {"json", "yaml", "sbml", "pickle"}}
+  \cup {[a |-> "SaveDoc", s |-> 1, fmt |-> f] : f \in {"json", "sbml"}}
+  \cup {[a |-> "LoadDoc", s |-> t] : t \in {1, 2}}
+  \cup {[a |-> "Annotate", s |-> 1, x |-> "MODEL", v |-> 3, via |-> 2],
+        [a |-> "Annotate", s |-> 1, x |-> "g1", v |-> 4, via |-> 0],
+        [a |-> "SetBounds", s |-> 1, r |-> "r1", lo |-> 1500, hi |-> 2000],
+        [a |-> "SetDirection", s |-> 1, dir |-> "min"]}
 FullOps ==
+  IF FullSet = "io" THEN IoOps ELSE
   IF FullSet = "bounds" THEN BoundOps ELSE
   BoundOps
   \cup {
@@ -232,7 +246,8 @@ FullOps ==
         [a |-> "SetMedium", s |-> 1, d |-> [x \in RxU |-> IF x = "EX_m3" THEN 5 ELSE Missing]],
         [a |-> "DetachedSetBounds", s |-> 1, r |-> "r1", lo |-> 0, hi |-> 5],
         [a |-> "Enter", s |-> 1], [a |-> "Exit", s |-> 1]}
-FullPrefix == SeedOps(1, "glpk") \o <<[a |-> "Enter", s |-> 1]>>
+FullPrefix == IF FullSet = "io" THEN SeedOps(1, "glpk") \o <<[a |-> "RoundTrip", s |-> 1, fmt |-> "json"]>>
+              ELSE SeedOps(1, "glpk") \o <<[a |-> "Enter", s |-> 1]>>
 
 Init ==
   IF Mode = "full"
